@@ -15,7 +15,15 @@ of `antctl status` (through the node RPC, which can succeed or fail at any call)
 `Op.kill` (a process dying behind the manager's back) is an environment event, not a fault of a call; it is part
 of the histories everywhere except in `running_has_process`, where the clause is about what the manager records.
 
-The registry file is a second observable (`Sys`, `SOp.reload`, section 8): it changes only where the code saves.
+The registry file is a second observable (`Sys`, `SOp.reload`, sections 8-8c): it changes only where the code saves.
+Where the callers save and whether they refresh first — cmd/node.rs `add / start / stop / remove / upgrade / status`,
+antctld's `restart_handler` — is read from the source by rs2lean (one flag per site, `CmdCfg.gen`); `SOp.cmd` is one
+whole `antctl` invocation (load, partial refresh, service selection, operation, save). Theorems about that layer:
+`running_has_process_file` (+ witness for the command layer before this round's repair), `cmd_stop_remove_leave_nothing`
+(full strength: no K-s-orphan hypothesis), `cmd_success_is_saved`, `daemon_restart_saves`.
+Ports (section 6): `requested_port_refused`, `requested_twice_refused`, `no_two_services_share_a_port` /
+`add_keeps_ports_distinct` (post-state, requested ports), witnesses `overlap_check_needed` (old shape),
+`auto_port_not_compared` (declared assumption) and, for the daemon's replacement service, K-s-rpcshare (section 10).
 
 Two clauses are false of the code in full strength (known finding K-s-orphan: a `start` whose RPC query fails
 after the process was launched records nothing about the live process): the full statements are kept as `def`s,
